@@ -418,7 +418,10 @@ def accept_reply_obligation(prog, enums, structs):
         e.env["proto"] = proto
         msg = Adt("ProtoShim", None, [Adt("Protocol", proto, [])], ["protocol"])
         names = structs["DNSPkt"][0]
-        oq = Adt("DNSPkt", None, [Opaque("unused") for _ in names], list(names))
+        # the upstream query was built by create_outquery(id, ..) just before (decided by c03_outquery_carries_the_question): it carries the chosen id
+        ovals = {n: Opaque("unused") for n in names}
+        ovals["qid"] = BV(e.env["id"])
+        oq = Adt("DNSPkt", None, [ovals[n] for n in names], list(names))
         return e.call_fn(fns[0], [Ref(Cell(msg)), Opaque("SocketAddr"), BV(e.env["id"]), oq])
     paths = ex.explore(run)
     failed, kinds = [], {}
